@@ -67,6 +67,8 @@ def native_run(mod, job, inputs, named, watchdog=10.0):
     cm = setup(nvm, job) if setup else None
     if cm is None:
         cm = contextlib.nullcontext()
+    from . import standin
+    standin.guard_harness_classes()
 
     def go():
         with cm:
@@ -268,6 +270,8 @@ def _run_job(pid, job, opts, res, ctl=None):
         vm.bv_width = job['bv_width']
     if hasattr(mod, 'sym_setup'):
         mod.sym_setup(vm, job)
+    from . import standin
+    standin.guard_harness_classes()                # harness modules imported lazily by the set-up are guarded as well
     if job.get('mutation'):
         apply_mutation(vm, job['mutation'])
     fn = getattr(mod, job['fn'])
